@@ -8,15 +8,18 @@ pub mod m1_perm1 {
    use crate::common::*;
    ascent! {
       pub struct Prog;
-      relation r3(i64, i64, i64);
-      relation r2(i64);
       relation r0(i64, i64);
+      relation r3(i64, i64, i64);
       relation r1(i64, i64);
-      r3(v0, v1, v9) <-- r0(v0, v1), let v9 = 2, r1(v1, v9);
-      r3(v1, v1, ((*v0) + 1)) <-- r1(v0, v1) if ((*v1) < 6), if ((*v0) < 6);
+      relation r2(i64);
+      r3(v1, ((*v0) + 1), v1) <-- r2(v0) if ((*v0) < 2), if ((*v0) < 6), r1(v1, v0);
       r3(v0, v1, v2) <-- r0(v0, v1) if ((*v0) < 3), r1(v1, v2) if ((*v2) != (*v1));
-      r3(0, 3, 3) <-- r0(1, 1);
+      r1(3, 3) <-- r1(1, 1);
+      r2(v0) <-- r0(v0, v1) if ((*v0) < 3), r1(v1, v2) if ((*v2) != (*v1));
+      r3(1, 2, 1);
+      r3(v1, v1, v1) <-- r0(3, 2), r1(0, v0), r1(v0, v1);
       r3(v0, v0, (v0 + 1)) <-- let v0 = 2, r1(v0, v0), r3(v0, (v0 + 1), (v0 + 1)), if (v0 < 6);
+      r3(0, 3, 3) <-- r0(1, 1);
    }
    pub struct Inst { p: Prog, pool: Option<ascent::rayon::ThreadPool> }
    pub fn make(pool: Option<usize>) -> Box<dyn Driver> {
@@ -62,11 +65,10 @@ pub mod m3 {
       r3(v0, 1) <-- r2(v0) if ((*v0) != 1);
       r4(v0, v0) <-- r3(v0, 3), if ((*v0) <= 1), r2(v0);
       r5((v2 + 1), v2, 1) <-- r4(v0, v1) if ((*v0) < 1) let v2 = ((*v1) + 0), r3(v2, v0), let v3 = (*v1), if (v2 < 6);
-      r5(v0, v1, v9) <-- for v9 in 0..3, r0(v0, v1), r3(v9, v1);
-      r3(v0, v0) <-- r1(v0) if ((*v0) != 6), let v1 = (*v0), r2(v2);
-      r5(v2, v4, v3) <-- r0(v0, v1) if ((*v1) <= 4), r0(v2, v3), if let Some(v4) = Some((*v3));
-      r3(v0, v2) <-- let v0 = 3, r5(v0, v1, v0), r4(((*v1) + 1), ((*v1) + 1)) if ((*v1) <= 6), r0(((*v1) + 1), v2);
-      r1(((*v0) + 1)) <-- r1(v0) if ((*v0) < 3), if ((*v0) < 6);
+      r3(v0, v8) <-- if let Some(v9) = Some(2), r0(v0, v1), r3(v1, v9) let v8 = ((*v0) + 1);
+      r4(v0, 1) <-- r0(v0, 3) if ((*v0) != 6), let v1 = (*v0);
+      r0(3, 0);
+      r1(((*v0) + 1)) <-- r0(1, v0), if ((*v0) < 6);
    }
    pub struct Inst { p: Prog, pool: Option<ascent::rayon::ThreadPool> }
    pub fn make(pool: Option<usize>) -> Box<dyn Driver> {
@@ -148,7 +150,7 @@ pub mod m5_str {
       relation r0(String, String);
       relation r1(String, String);
       relation r2(String, String);
-      r2(v0, v1) <-- r2(v0, v1), r2("s1".to_string(), v2), if (v0.clone() != "s2".to_string());
+      r2(v0, v1) <-- r2(v0, v1), r2(v1, v1), if (v1.clone() != "s2".to_string());
       r2(v1, v1) <-- r0(v0, v1), r2(v0, v2);
    }
    pub struct Inst { p: Prog, pool: Option<ascent::rayon::ThreadPool> }
@@ -190,8 +192,8 @@ pub mod m7 {
       r1(v0, v0) <-- r0(v0, v1), if ((*v0) != 3);
       r2(v1, v1) <-- r0(v0, v1);
       r3(2) <-- r1(0, v0), r2(v1, v2), if ((*v0) != 2);
-      r1(v0, v0) <-- r0(v0, v1), r2(v1, v9), if ((*v9) == 1);
-      r1(v0, v1) <-- r0(v0, v1), r1(v9, v1);
+      r1(v0, v1) <-- r0(v0, v1), r2(v0, v0), r0(v1, v2), if ((*v2) == 1);
+      r1(v0, v2) <-- r0(v0, v1), r1(v1, v2), r0(v2, v3);
       r3(v1) <-- r0(v0, v1), if ((*v0) == 0);
       r1(1, 2);
       r1(1, 3);
@@ -229,18 +231,15 @@ pub mod m8_perm0 {
    use crate::common::*;
    ascent! {
       pub struct Prog;
-      relation r2(i64, i64, i64);
       relation r3(i64, i64);
-      relation r0(i64);
       relation r1(i64, i64);
+      relation r2(i64, i64, i64);
+      relation r0(i64);
       relation r4(i64);
-      r1(0, 1) <-- r0(3);
-      r2(v0, v1, v2) <-- r3(v0, v1), r1(1, v2);
       r1(v1, v0) <-- r1(v0, v1), r0(v0);
-      r4(v0) <-- r4(v0), r4(v0), r2(1, v0, v0);
-      r1(v0, v0) <-- r0(v0), if ((*v0) != 3);
-      r1(0, v0) <-- r2(v0, v1, v2), r4(v3);
-      r1(v0, v0) <-- r1(v0, 0), if ((*v0) != 0);
+      r1(v0, v0) <-- r0(v0), if ((*v0) != 0);
+      r4(v0) <-- r3(v0, v1), r1(v1, v2), if ((*v2) == 0);
+      r3(v1, v0) <-- r2(0, v0, v1), if ((*v1) == 2);
    }
    pub struct Inst { p: Prog, pool: Option<ascent::rayon::ThreadPool> }
    pub fn make(pool: Option<usize>) -> Box<dyn Driver> {
@@ -280,7 +279,7 @@ pub mod m9_perm1 {
       relation r2(i64, i64, i64);
       relation r1(i64, i64);
       r2(v0, v0, v0) <-- r1(v0, 3), if ((*v0) == 1);
-      r2(v0, v1, v9) <-- r1(v0, v1), r1(v1, v9);
+      r2(v0, v1, v0) <-- r1(v0, v1), r1(v1, v1);
       r2(v2, v1, v5) <-- r1(v0, v1), r2(v4, v1, v5), r2(v2, v1, v3), if ((*v0) != 2);
       r1(3, 2);
       r1(v1, v2) <-- r1(1, v2), r2(v0, 3, v1), if ((*v0) != 3);
@@ -309,6 +308,96 @@ pub mod m9_perm1 {
    }
 }
 
+#[allow(unused, non_snake_case, clippy::all)]
+pub mod m10_ren0 {
+   use ascent::*;
+   use ascent::aggregators::*;
+   use ascent::lattice::{Dual, set::Set};
+   use crate::common::*;
+   ascent! {
+      pub struct Prog;
+      relation rel0_(i64, i64);
+      relation rel1_(i64, i64);
+      relation rel2_(i64);
+      relation rel3_(i64, i64, i64);
+      rel1_(((*x1_) + 1), x1_) <-- for x0_ in 2..3, rel0_(x1_, x0_) if ((*x1_) != 3), if ((*x1_) < 6);
+      rel2_(x0_) <-- rel0_(x0_, 3);
+      rel3_(x3_, x3_, x1_) <-- if let Some(x0_) = Some(2), rel1_(x1_, x2_), rel2_(x3_);
+      rel1_(x0_, x1_) <-- rel0_(x0_, x1_), rel0_(x0_, x0_), rel0_(x1_, x2_);
+      rel2_(x0_) <-- rel0_(x0_, x1_), rel0_(x1_, x1_);
+      rel1_(x0_, x0_) <-- rel0_(x0_, 3);
+   }
+   pub struct Inst { p: Prog, pool: Option<ascent::rayon::ThreadPool> }
+   pub fn make(pool: Option<usize>) -> Box<dyn Driver> {
+      let pool = pool.map(|n| ascent::rayon::ThreadPoolBuilder::new().num_threads(n).build().unwrap());
+      let p = match &pool { Some(pl) => pl.install(|| Default::default()), None => Default::default() };
+      Box::new(Inst { p, pool })
+   }
+   impl Driver for Inst {
+      fn load(&mut self, rel: usize, rows: &[Sexp], append: bool) -> Option<()> {
+         match rel {
+         0 => { let v: Vec<(i64,i64,)> = parse_rows(rows)?; if append { self.p.rel0_.extend(v) } else { self.p.rel0_ = v } },
+         1 => { let v: Vec<(i64,i64,)> = parse_rows(rows)?; if append { self.p.rel1_.extend(v) } else { self.p.rel1_ = v } },
+         2 => { let v: Vec<(i64,)> = parse_rows(rows)?; if append { self.p.rel2_.extend(v) } else { self.p.rel2_ = v } },
+         3 => { let v: Vec<(i64,i64,i64,)> = parse_rows(rows)?; if append { self.p.rel3_.extend(v) } else { self.p.rel3_ = v } },
+            _ => return None,
+         }
+         Some(())
+      }
+      fn run(&mut self) { match &self.pool { Some(pl) => { let p = &mut self.p; pl.install(|| p.run()) }, None => self.p.run() } }
+      fn run_here(&mut self) { self.p.run() }
+      fn run_timeout(&mut self, k: usize) -> Option<bool> { let _ = k; None }
+      fn dump(&self) -> String { vec![dump_rel(0, self.p.rel0_.iter().map(Row::render).collect()), dump_rel(1, self.p.rel1_.iter().map(Row::render).collect()), dump_rel(2, self.p.rel2_.iter().map(Row::render).collect()), dump_rel(3, self.p.rel3_.iter().map(Row::render).collect())].join(" | ") }
+      fn iters(&self) -> String { format!("iters {}", self.p.scc_iters.iter().map(|x| x.to_string()).collect::<Vec<_>>().join(" ")) }
+   }
+}
+
+#[allow(unused, non_snake_case, clippy::all)]
+pub mod m12_perm0 {
+   use ascent::*;
+   use ascent::aggregators::*;
+   use ascent::lattice::{Dual, set::Set};
+   use crate::common::*;
+   ascent! {
+      pub struct Prog;
+      relation r2(i64);
+      relation r1(i64, i64, i64);
+      relation r4(i64, i64, i64);
+      relation r5(i64, i64);
+      relation r0(i64, i64, i64);
+      relation r3(i64);
+      r3(((*v0) + 1)) <-- r0(v0, v1, v2), r3(1), if ((*v0) < 6);
+      r4(v0, v1, v2) <-- r5(v0, v1), r5(v1, v2), r5(v0, v0);
+      r5(((*v0) + 1), v0) <-- r4(1, 2, v0) if ((*v0) < 2), if ((*v0) < 6);
+      r3(v2) <-- r1(v0, v1, v2) if ((*v0) != 5) let v3 = ((*v2) + 0);
+   }
+   pub struct Inst { p: Prog, pool: Option<ascent::rayon::ThreadPool> }
+   pub fn make(pool: Option<usize>) -> Box<dyn Driver> {
+      let pool = pool.map(|n| ascent::rayon::ThreadPoolBuilder::new().num_threads(n).build().unwrap());
+      let p = match &pool { Some(pl) => pl.install(|| Default::default()), None => Default::default() };
+      Box::new(Inst { p, pool })
+   }
+   impl Driver for Inst {
+      fn load(&mut self, rel: usize, rows: &[Sexp], append: bool) -> Option<()> {
+         match rel {
+         0 => { let v: Vec<(i64,i64,i64,)> = parse_rows(rows)?; if append { self.p.r0.extend(v) } else { self.p.r0 = v } },
+         1 => { let v: Vec<(i64,i64,i64,)> = parse_rows(rows)?; if append { self.p.r1.extend(v) } else { self.p.r1 = v } },
+         2 => { let v: Vec<(i64,)> = parse_rows(rows)?; if append { self.p.r2.extend(v) } else { self.p.r2 = v } },
+         3 => { let v: Vec<(i64,)> = parse_rows(rows)?; if append { self.p.r3.extend(v) } else { self.p.r3 = v } },
+         4 => { let v: Vec<(i64,i64,i64,)> = parse_rows(rows)?; if append { self.p.r4.extend(v) } else { self.p.r4 = v } },
+         5 => { let v: Vec<(i64,i64,)> = parse_rows(rows)?; if append { self.p.r5.extend(v) } else { self.p.r5 = v } },
+            _ => return None,
+         }
+         Some(())
+      }
+      fn run(&mut self) { match &self.pool { Some(pl) => { let p = &mut self.p; pl.install(|| p.run()) }, None => self.p.run() } }
+      fn run_here(&mut self) { self.p.run() }
+      fn run_timeout(&mut self, k: usize) -> Option<bool> { let _ = k; None }
+      fn dump(&self) -> String { vec![dump_rel(0, self.p.r0.iter().map(Row::render).collect()), dump_rel(1, self.p.r1.iter().map(Row::render).collect()), dump_rel(2, self.p.r2.iter().map(Row::render).collect()), dump_rel(3, self.p.r3.iter().map(Row::render).collect()), dump_rel(4, self.p.r4.iter().map(Row::render).collect()), dump_rel(5, self.p.r5.iter().map(Row::render).collect())].join(" | ") }
+      fn iters(&self) -> String { format!("iters {}", self.p.scc_iters.iter().map(|x| x.to_string()).collect::<Vec<_>>().join(" ")) }
+   }
+}
+
 fn main() {
-   common::main_loop(&[("m1_perm1", m1_perm1::make as common::Factory), ("m3", m3::make as common::Factory), ("m4_ren0", m4_ren0::make as common::Factory), ("m5_str", m5_str::make as common::Factory), ("m7", m7::make as common::Factory), ("m8_perm0", m8_perm0::make as common::Factory), ("m9_perm1", m9_perm1::make as common::Factory)]);
+   common::main_loop(&[("m1_perm1", m1_perm1::make as common::Factory), ("m3", m3::make as common::Factory), ("m4_ren0", m4_ren0::make as common::Factory), ("m5_str", m5_str::make as common::Factory), ("m7", m7::make as common::Factory), ("m8_perm0", m8_perm0::make as common::Factory), ("m9_perm1", m9_perm1::make as common::Factory), ("m10_ren0", m10_ren0::make as common::Factory), ("m12_perm0", m12_perm0::make as common::Factory)]);
 }
